@@ -62,20 +62,24 @@ Failing(h, e, fl) ==
                 x       == newObs[1]
                 \* the receiver as the operation would have left it: the printed rows, under the receiver's own policy
                 asPost  == [x EXCEPT !.pol = h[recv].pol, !.al = IF a.op = "TranslateByReference" THEN AMINOACIDS ELSE x.al]
+                \* the part of the return record the command does not print, as the specification defines it
+                retq    == IF a.op = "MaxCharStats" THEN [e.ret EXCEPT !.total = MaxCharTotals(h[recv], a.a.igaps, a.a.ins)] ELSE e.ret
             IN
             [errClass  |-> (e.kind = "err") = mustErr,
              recvState |-> obs[recv] = h[recv],
              allowed   |-> IF e.kind = "err" THEN n = Len(h)
+                           ELSE IF a.op \in CliQueryOps THEN mustErr \/ (newObs = <<>> /\ Allowed(h, a.op, recv, a.a, h[recv], <<>>, retq))
                            ELSE mustErr \/ (Len(newObs) = 1 /\ ((a.op = "Compress" /\ ~a.full) \/
                                   IF a.op \in CliCreators THEN Allowed(h, a.op, recv, a.a, h[recv], newObs, e.ret)
                                   ELSE Allowed(h, a.op, recv, a.a, asPost, <<>>, e.ret))),
              frame |-> \A i \in 1..Len(h) : i <= n /\ obs[i] = h[i], views |-> views]
           ELSE LET R0 == Step(h, a.op, recv, a.a)
-                   R  == CliOf(h[recv], R0) IN
+                   R  == CliOf(a.op, h[recv], R0) IN
           [errClass  |-> (e.kind = "err") = R.err,
            recvState |-> obs[recv] = h[recv],
            created   |-> IF R.err \/ e.kind = "err" THEN n = Len(h) ELSE (~R.j) \/ newObs = R.new,
            ret       |-> R.err \/ e.kind = "err" \/ ~R.j \/ ~a.full \/ RetOK(a.op, a.a, R.ret, e.ret),
+           folded    |-> R.err \/ e.kind = "err" \/ ~R.j \/ ~a.full \/ FoldedOK(a.op, a.a, R.ret, e.ret),
            frame |-> \A i \in 1..Len(h) : i <= n /\ obs[i] = h[i], views |-> (~R.j) \/ views]
         ELSE IF op \in RelationalOps THEN
           LET mustErr == ErrRel(h, op, recv, a) IN
